@@ -145,5 +145,9 @@ pub fn verif_sort_by_bytes<T: HasBytes>(v: &mut Vec<T>)
 /// D13 targets: `[a, b].concat()` / `[a, b, c].concat()` on byte slices
 #[verifier::external_body] pub fn verif_concat2(a: &[u8], b: &[u8]) -> (r: Vec<u8>) ensures r@ == a@ + b@ { unimplemented!() }
 #[verifier::external_body] pub fn verif_concat3(a: &[u8], b: &[u8], c: &[u8]) -> (r: Vec<u8>) ensures r@ == a@ + b@ + c@ { unimplemented!() }
+/// concatenation of the first n inner vectors, in order
+pub open spec fn flat_upto<T>(v: Seq<Vec<T>>, n: int) -> Seq<T> decreases n { if n <= 0 { Seq::empty() } else { flat_upto(v, n - 1) + v[n - 1]@ } }
+/// D13 target: `vv.concat()` on a Vec<Vec<T>> (std: the inner vectors one after the other)
+#[verifier::external_body] pub fn verif_concat_vecs<T: Clone>(v: &Vec<Vec<T>>) -> (r: Vec<T>) ensures r@ == flat_upto(v@, v@.len() as int) { unimplemented!() }
 /// D14 target: `arr.to_vec()` (element-wise clone)
 #[verifier::external_body] pub fn verif_arr_to_vec<T, const N: usize>(a: &[T; N]) -> (r: Vec<T>) ensures r@ == a@ { unimplemented!() }
